@@ -226,6 +226,12 @@ type Rec struct {
 	world      *World
 	CID        media.CID
 	Flv        bool
+	// CloseMode: what Consumer.Close does after counting the call: "" returns, "panic" panics,
+	// "block" blocks until CloseGate is closed (a transport whose close misbehaves)
+	CloseMode string
+	CloseGate chan struct{}
+	closeIn   chan struct{} // closed when Close was entered for the first time
+	closeOnce sync.Once
 }
 
 func (r *Rec) Consume(p media.Pack) {
@@ -255,7 +261,21 @@ func (r *Rec) Consume(p media.Pack) {
 	r.mu.Unlock()
 }
 
-func (r *Rec) Close() error { atomic.AddInt32(&r.closeCalls, 1); return nil }
+func (r *Rec) Close() error {
+	atomic.AddInt32(&r.closeCalls, 1)
+	r.closeOnce.Do(func() {
+		if r.closeIn != nil {
+			close(r.closeIn)
+		}
+	})
+	switch r.CloseMode {
+	case "panic":
+		panic("verif: consumer Close panics on request")
+	case "block":
+		<-r.CloseGate
+	}
+	return nil
+}
 func (r *Rec) Stall()       { atomic.StoreInt32(&r.stalled, 1) }
 func (r *Rec) Resume() {
 	atomic.StoreInt32(&r.stalled, 0)
